@@ -56,7 +56,6 @@ func (r *xrunner) flush() {
 
 func ctxKindName(n *adoc.Node) string { return n.Kind.String() }
 
-
 // runGrid evaluates every expression on every document (generated on demand
 // by gen) from every context node accepted by ctxOK. Work is cut into
 // (document chunk x expression chunk) jobs so that neither compiled queries
